@@ -245,6 +245,30 @@ def rangefor_list(lw, n, rinit, lv, body, ind):
     lw.emit(sp + '}')
 
 
+def rangefor_domkids(lw, n, rinit, lv, body, ind):
+    """`for (const auto &child : iterChildElements(...))`: an abstract loop over the sequence of matching child elements; its loop
+    contract comes from the spec file (the body assigns message members)"""
+    sp = '  ' * ind
+    r = lw.expr(rinit)
+    lw.flush(sp)
+    num = lw.loops
+    lw.loops += 1
+    rv, idx, cnt = '__r%d' % num, '__i%d' % num, '__n%d' % num
+    lw.names.update((rv, idx, cnt))
+    lw.loop_kinds[num] = ('domkids', idx, cnt)
+    v = lv['inner'][0]
+    lw.emit('%sqdomkids %s = %s;' % (sp, rv, r))
+    lw.emit('%sint %s = qdomkids_size(%s);' % (sp, cnt, rv))
+    lw.emit('%sint %s = 0;' % (sp, idx))
+    lw.emit('%sfor (; %s < %s; %s++)' % (sp, idx, cnt, idx))
+    lw.emit('%s/*@LOOP%d@*/' % (sp, num))
+    lw.emit(sp + '{')
+    cn, ct = lw.declare_local(v, sp)
+    lw.emit('%s  %s %s = qdomkids_at(%s, %s);' % (sp, ct, cn, rv, idx))
+    lw.block(body, ind + 1)
+    lw.emit(sp + '}')
+
+
 def sub_class_id(lw, tname):
     return lw.p.literal_ids.cexpr('class:' + tname)
 
@@ -405,6 +429,7 @@ def profile():
             'QXmppMessage': 'QXmppMessage', 'QXmppStanza': 'QXmppStanza', MP: MP, SP: SP,
             'QXmlStreamWriter': 'qxw', 'QIODevice': 'qiodev', 'QDateTime': 'qdt', 'QByteArray': 'qba', 'QTimeZone': 'qtz',
             'QTextStream': 'qtextstream', 'QChar': 'int',
+            'QXmpp::Private::DomChildElements': 'qdomkids', 'DomChildElements': 'qdomkids',
             'QIODevice::OpenMode': 'int', 'QFlags<QIODevice::OpenModeFlag>': 'int', 'QIODevice::OpenModeFlag': 'int',
             'qsub': 'qsub', 'qoptsub': 'qoptsub', 'qtable': 'qtable', 'qoptint': 'qoptint', 'qlist': 'qlist', 'qtable': 'qtable',
         },
@@ -468,12 +493,25 @@ def profile():
             'op*:qoptint': ('arg', 0),
             'op=:qoptsub:qsub': ('expr', '*{0} = opt_some({1})'),
             # ---- sub-objects
+            'qsub::isValid/0': ('fn', 'sub_isValid'),
             'qsub::toXml/1': ('fn', 'sub_toXml'),
             'qsub::toXmlElementFromChild/1': ('fn', 'sub_toXml'),
             'qsub::parse/1': sub_parse('sub_parse'),
             'qsub::parseElementFromChild/1': sub_parse('sub_parse'),
             # ---- lists
             'rangefor:qlist': rangefor_list,
+            'qlist::clear/0': ('fnmut', 'qlist_clear'),
+            # QXmpp::Private::iterChildElements(parent, tag = {}, ns = {}) (QXmppUtils_p.h): the child elements of `parent` that match
+            # the filters, in document order -- an abstract sequence (count and elements are functions of (parent, tag, ns)); ASSUMED
+            'fn:iterChildElements/1': ('expr', 'qdomkids_of({0}, 0, 0)'),
+            'fn:iterChildElements/2': ('expr', 'qdomkids_of({0}, {1}, 0)'),
+            'fn:iterChildElements/3': ('expr', 'qdomkids_of({0}, {1}, {2})'),
+            'rangefor:qdomkids': rangefor_domkids,
+            'ctor:qsub(qdom)': ('expr', 'sub_of_dom({0})'),      # QXmppElement(const QDomElement &)
+            'QXmppMessage::parseExtension/2': ('callee', 'QXmppMessage_parseExtension'),
+            'QXmppMessage::parseExtensions/2': ('callee', 'QXmppMessage_parseExtensions'),
+            'QXmppMessage::parse/1': ('expr', 'QXmppStanza_parse(&({0})->stanza, {1})'),       # QXmppStanza::parse(element) on the base-class subobject
+            'QXmppMessage::setExtensions/1': ('expr', 'QXmppStanza_setExtensions(&({0})->stanza, {1})'),
             'qlist::push_back/1': ('fnmut', 'qlist_push_back'),
             'qlist::isEmpty/0': ('fn', 'qlist_isEmpty'),
             'op<<:qlist:qsub': ('expr', 'qlist_push_back(&{0}, {1})'),
@@ -509,6 +547,7 @@ def profile():
         pure_fns={'id'},
     )
     # members of aggregate sub-objects (QXmppStanzaId::id/by, Reply::to/id): uninterpreted projections of the value
+    p.field_rules['qsub::d'] = 'sub_dptr({b})'      # QXmppStanza::Error::d (the shared error value inside an Error object)
     for f in ('id', 'by', 'to'):
         p.field_rules['qsub::' + f] = 'sub_field({b}, %s)' % p.literal_ids.cexpr('field:' + f)
     return p
@@ -646,7 +685,7 @@ def structure(lw, callee_members):
 def loop_specs(lw, spec, extra_assigns):
     """loop contracts of the list loops are generated (all have the same abstract shape).  `## loop k` of the spec file means the
     k-th for/while loop of the function (list loops not counted), so that moving a block does not renumber it."""
-    for_ordinals = sorted(num for num, kind in lw.loop_kinds.items() if kind[0] == 'for')
+    for_ordinals = sorted(num for num, kind in lw.loop_kinds.items() if kind[0] != 'list')
     file_loops, file_labels = dict(spec.loops), dict(spec.inv_labels)
     if len(file_loops) != len(for_ordinals) or any(k >= len(for_ordinals) for k in file_loops):
         raise Unsupported('%s has %d for/while loops but its specification has loop contracts for %d' % (lw.cname, len(for_ordinals), len(file_loops)))
@@ -688,6 +727,8 @@ def callsite_modes(prof):
 def prefetch(keys, jobs=6):
     """run the clang AST dumps of several (source, filter) pairs concurrently; astx caches them for the sequential code below"""
     from concurrent.futures import ThreadPoolExecutor
+    from vlib import configure
+    configure.configure()      # once, before the threads start: concurrent first calls would run cmake twice into the same directory
 
     def one(k):
         try:
@@ -700,10 +741,10 @@ def prefetch(keys, jobs=6):
 
 def build(work, tier):
     prof = profile()
-    prefetch([(SRC, f) for f in ('QXmpp::operator&', 'QXmppMessage::hasHint', 'QXmppMessage::addHint', 'QXmppMessage::encryptionMethod',
+    prefetch([(SRC, f) for f in ('QXmpp::operator&', 'QXmppMessage::parseExtensions', 'QXmppMessage::parse', 'QXmppMessage::hasHint', 'QXmppMessage::addHint', 'QXmppMessage::encryptionMethod',
                                  'QXmppMessage::encryptionName', 'checkElement', 'QXmppMessage::serializeExtensions', 'QXmppMessage::parseExtension',
                                  'QXmppMessage::toXml', MP, 'SceMode')] +
-             [(SRC_STANZA, f) for f in ('QXmppStanza::id', 'QXmppStanza::to', 'QXmppStanza::from', 'QXmppStanza::lang', 'QXmppStanza::error',
+             [(SRC_STANZA, f) for f in ('QXmppStanza::id', 'QXmppStanza::setExtensions', 'QXmppStanza::parse', 'QXmppStanza::to', 'QXmppStanza::from', 'QXmppStanza::lang', 'QXmppStanza::error',
                                         'QXmppStanza::extensionsToXml', SP, 'SceMode')] + [(SRC_CLIENT, 'QXmppClient::sendSensitive')])
     for cls, src in ((MP, SRC), (SP, SRC_STANZA)):
         fields, _ = ctx.record_fields(os.path.join(REPO, src), cls, cls)
@@ -738,10 +779,14 @@ def build(work, tier):
     lower(SRC_STANZA, 'QXmppStanza::extensionsToXml', 'extensionsToXml', 'QXmppStanza_extensionsToXml', this='QXmppStanza', specf='ext.spec')
     lower(SRC, 'QXmppMessage::serializeExtensions', 'serializeExtensions', 'QXmppMessage_serializeExtensions', this='QXmppMessage', specf='serialize.spec')
     lower(SRC, 'QXmppMessage::parseExtension', 'parseExtension', 'QXmppMessage_parseExtension', this='QXmppMessage', specf='parse.spec')
+    lower(SRC_STANZA, 'QXmppStanza::setExtensions', 'setExtensions', 'QXmppStanza_setExtensions', this='QXmppStanza')
+    lower(SRC, 'QXmppMessage::parseExtensions', 'parseExtensions', 'QXmppMessage_parseExtensions', this='QXmppMessage', specf='parseExtensions.spec')
+    lower(SRC_STANZA, 'QXmppStanza::parse', 'parse', 'QXmppStanza_parse', this='QXmppStanza', specf='stanzaparse.spec', nparams=1)
+    lower(SRC, 'QXmppMessage::parse', 'parse', 'QXmppMessage_parse', this='QXmppMessage', specf='messageparse.spec', nparams=2)
     lower(SRC, 'QXmppMessage::toXml', 'toXml', 'QXmppMessage_toXml', this='QXmppMessage', specf='toxml.spec', nparams=2)
     # the helpers are part of the verified text (used through their bodies): keep them in the evidence, marked as such
     helpers = ['QXmppMessage_hasHint', 'QXmppMessage_addHint', 'QXmppMessage_encryptionMethod', 'QXmppMessage_encryptionName', 'checkElement',
-               'QXmppStanza_id', 'QXmppStanza_to', 'QXmppStanza_from', 'QXmppStanza_lang', 'QXmppStanza_error']
+               'QXmppStanza_id', 'QXmppStanza_to', 'QXmppStanza_from', 'QXmppStanza_lang', 'QXmppStanza_error', 'QXmppStanza_setExtensions']
 
     for f_ in b.functions:
         f_['role'] = 'helper, used through its lowered body' if f_['cname'] in helpers else 'under contract'
@@ -813,6 +858,27 @@ def build(work, tier):
         note='loop-free; every element, every mode, every prior message state; every member except the two of finding C17-jmi-callinvite-parsed-public')
     add('parseExtension_jmi_callinvite', 'QXmppMessage_parseExtension', par, hp, 'complete', defines=['FINDING_ONLY_JMI'], finding='C17-jmi-callinvite-parsed-public',
         note='restricted to the members jingleMessageInitiationElement / callInviteElement (recorded finding)')
+    # 3b. parseExtensions (the child loop): parseExtension enters through the contract it is verified against above; the unknown
+    #     children are stored with setExtensions() in every mode, which for ScePublic is the parse side of the recorded finding
+    pxs = base_helpers + b.prototype(texts['QXmppMessage_parseExtension']) + texts['QXmppMessage_parseExtensions']
+    hx = 'QXmppMessage *self; qdom e; quint8 m; QXmppMessage_parseExtensions(self, e, m);'
+    for pid, dfn, fnd, note in (('parseExtensions', 'FINDING_EXCLUDED_EXT', None,
+                                 'every element with any number of children (loop contract), every mode, every prior message state; parseExtension through its verified contract; every stanza member except `extensions`'),
+                                ('parseExtensions_unknown_extensions', 'FINDING_ONLY_EXT', 'C17-unknown-extensions-public',
+                                 'restricted to the stanza member `extensions` (recorded finding: unknown elements are treated as public)')):
+        p = add(pid, 'QXmppMessage_parseExtensions', pxs, hx, 'contract', defines=[dfn], finding=fnd, expect_loops=1, note=note)
+        p.replace = ['QXmppMessage_parseExtension']
+    # 3c. QXmppStanza::parse (stanza header) and QXmppMessage::parse(element, mode) = header + type + parseExtensions, the two callees
+    #     through the contracts they are verified against
+    add('stanza_parse', 'QXmppStanza_parse', texts['QXmppStanza_parse'], 'QXmppStanza *self; qdom e; QXmppStanza_parse(self, e);', 'contract', expect_loops=1,
+        note='every element (any number of <address/> children: loop contract), every prior stanza state')
+    mps = (base_helpers + b.prototype(texts['QXmppStanza_parse']) + b.prototype(texts['QXmppMessage_parseExtensions']) + texts['QXmppMessage_parse'])
+    hm = 'QXmppMessage *self; qdom e; quint8 m; QXmppMessage_parse(self, e, m);'
+    # (no run restricted to the finding here: under its discriminator the contract of parseExtensions is the very thing that fails,
+    #  see parseExtensions_unknown_extensions, so using it as an assumption would be vacuous)
+    p = add('message_parse', 'QXmppMessage_parse', mps, hm, 'complete', defines=['FINDING_EXCLUDED_EXT'],
+            note='loop-free; QXmppStanza::parse and parseExtensions through their verified contracts; every stanza member except `extensions`')
+    p.replace = ['QXmppStanza_parse', 'QXmppMessage_parseExtensions']
     # 4. QXmppStanza::extensionsToXml: unknown-extensions finding split
     ext = body_of('QXmpp_SceMode_and') + texts['QXmppStanza_extensionsToXml']
     he = 'const QXmppStanza *self; qxw *w; quint8 m; QXmppStanza_extensionsToXml(self, w, m);'
@@ -901,7 +967,7 @@ NOT_COVERED = [
     'the bytes a sub-object serialiser (QXmppOutOfBandUrl::toXml, QXmppJingleMessageInitiationElement::toXml, ...) emits and XML escaping (Qt)',
     'value-level round trip (that parse(public) then parse(sensitive) restores each value): only the mode class of every member is decided here',
     'parse side: that an element handled in combined mode is handled by one of the two split modes (needs the bodies of the five static recognisers)',
-    'QXmppMessage::parseExtensions (the child loop and the unknown-extension list) and QXmppMessage::parse(element, mode)',
+    'the order of the two parse calls of the decrypt path and value-level accumulation across them (only: neither call assigns a member of the other part)',
     'the sendSensitive continuation in QXmppClient.cpp beyond the call-site fact that it calls message->toXml(&writer, QXmpp::ScePublic); OMEMO code (not built): its use of serializeExtensions(SceSensitive) / parseExtensions(SceSensitive)',
     'subclasses overriding serializeExtensions / parseExtension (QXmppPubSubEventBase)',
     'Qt 6 branches; BUILD_OMEMO members (omemoElement)',
